@@ -753,4 +753,4 @@ if __name__ == "__main__":  # child process of `_isolated`
         shutil.rmtree(_TMP["dir"], ignore_errors=True)
     print(json.dumps(_res, default=str))
 
-MANIFEST_ADDENDUM = "Oracle additions: archives that do not start at offset 0 of a file object (the caller's own header precedes them). Round 5: leaves re-shaped with tracking suspended after they acquired a gradient."
+MANIFEST_ADDENDUM = "Oracle additions: archives that do not start at offset 0 of a file object (the caller's own header precedes them). Round 5: leaves re-shaped with tracking suspended after they acquired a gradient. Round 7: file objects that are not io.IOBase instances (tempfile.NamedTemporaryFile, a duck-typed wrapper)."
